@@ -29,7 +29,12 @@ _real_open = io.open
 _real_getcwd = os.getcwd
 _real_stat = os.stat
 _real_lstat = os.lstat
+_real_replace = os.replace
+_real_rename = os.rename
+_real_remove = os.remove
+_real_unlink = os.unlink
 
+IO_HOOK = None  # optional callable(kind, path): called before an operation on the simulated tree takes effect
 ACTIVE = None  # the SimFS of the run in progress
 _installed = False
 
@@ -82,6 +87,8 @@ class _Mem(io.BytesIO):
 
     def close(self):
         if not self._closed_once:
+            if IO_HOOK is not None:
+                IO_HOOK("close", self._path)
             self._closed_once = True
             if self._writable:
                 self._fs.files[self._path] = self.getvalue()
@@ -158,6 +165,8 @@ class SimFS:
             full = os.path.normpath(path)
         cls = classify(full)
         writing = any(c in mode for c in "wax+")
+        if IO_HOOK is not None and cls == "simfs":
+            IO_HOOK("open", full)
         self.event("open", full, mode, cls)
         f = self._match_fault("open", cls, full)
         if f is not None:
@@ -214,6 +223,34 @@ class SimFS:
             return os.stat_result((st.S_IFDIR | 0o755, 1, 1, 2, 0, 0, 0, 0, 0, 0))
         raise FileNotFoundError(errno.ENOENT, os.strerror(errno.ENOENT), p)
 
+    def _full(self, p):
+        p = os.fspath(p)
+        if isinstance(p, bytes):
+            p = p.decode()
+        return os.path.normpath(p if os.path.isabs(p) else os.path.join(self.cwd, p))
+
+    def replace(self, src, dst, real):
+        a, b = self._full(src), self._full(dst)
+        if classify(a) != "simfs" and classify(b) != "simfs":
+            return real(src, dst)
+        if IO_HOOK is not None:
+            IO_HOOK("rename", a)
+        self.event("rename", a, b)
+        if a not in self.files:
+            raise FileNotFoundError(errno.ENOENT, os.strerror(errno.ENOENT), a)
+        self.files[b] = self.files.pop(a)
+
+    def remove(self, path, real):
+        a = self._full(path)
+        if classify(a) != "simfs":
+            return real(path)
+        if IO_HOOK is not None:
+            IO_HOOK("remove", a)
+        self.event("remove", a)
+        if a not in self.files:
+            raise FileNotFoundError(errno.ENOENT, os.strerror(errno.ENOENT), a)
+        del self.files[a]
+
     def opens(self, cls=None):
         return [e for e in self.history if e[1] == "open" and (cls is None or e[4] == cls)]
 
@@ -246,6 +283,21 @@ def _dispatch_lstat(path, *a, **kw):
     return fs.stat(path, _real_lstat, **kw)
 
 
+def _dispatch_replace(src, dst, **kw):
+    fs = ACTIVE
+    return _real_replace(src, dst, **kw) if fs is None or kw else fs.replace(src, dst, _real_replace)
+
+
+def _dispatch_rename(src, dst, **kw):
+    fs = ACTIVE
+    return _real_rename(src, dst, **kw) if fs is None or kw else fs.replace(src, dst, _real_rename)
+
+
+def _dispatch_remove(path, **kw):
+    fs = ACTIVE
+    return _real_remove(path, **kw) if fs is None or kw else fs.remove(path, _real_remove)
+
+
 def install():
     """Install the dispatcher at every binding the library reads files through."""
     global _installed
@@ -257,6 +309,10 @@ def install():
     os.getcwd = _dispatch_getcwd
     os.stat = _dispatch_stat
     os.lstat = _dispatch_lstat
+    os.replace = _dispatch_replace
+    os.rename = _dispatch_rename
+    os.remove = _dispatch_remove
+    os.unlink = _dispatch_remove
     import mappyfile.parser as mp
 
     if getattr(mp, "open", None) is not None:
